@@ -1,0 +1,77 @@
+//go:build verif
+
+package sourceaddrs
+
+// Contracts for the govc verifier (see /verif/DESIGN.md). This file contains
+// comments only; it is compiled only with the "verif" build tag.
+
+//@ closed github.com/hashicorp/go-slug/sourceaddrs.Source: sourceaddrs.LocalSource, sourceaddrs.RegistrySource, sourceaddrs.RemoteSource
+//@ closed github.com/hashicorp/go-slug/sourceaddrs.FinalSource: sourceaddrs.LocalSource, sourceaddrs.RegistrySourceFinal, sourceaddrs.RemoteSource
+
+//@ func normalizeSubpath -> (r, err)
+//@   pure
+//@   sweep
+//@   ensures C07,C06.norm: err == nil ==> normSub(r)
+//@   ensures C06.norm.fix: normSub(given) ==> err == nil && r == given
+//@   ensures C07.norm.rejects: err != nil ==> given != "" && (!validPath(given) || Clean(given) == ".")
+
+//@ func joinSubPath -> (r, err)
+//@   pure
+//@   sweep
+//@   ensures C11.join.value: err == nil ==> r == ite(Join(subPath, rel) == ".", "", Join(subPath, rel))
+//@   ensures C11.join.norm: err == nil ==> normSub(r)
+//@   ensures C11.join.fails: (err != nil) == (Join(subPath, rel) != "." && (Join(subPath, rel) == "" || isAbs(Join(subPath, rel)) || climbs(Join(subPath, rel))))
+
+//@ macro isLocal(V): dyntype(V, "sourceaddrs.LocalSource")
+//@ macro isRemote(V): dyntype(V, "sourceaddrs.RemoteSource")
+//@ macro isRegistry(V): dyntype(V, "sourceaddrs.RegistrySource")
+//@ macro isRegFinal(V): dyntype(V, "sourceaddrs.RegistrySourceFinal")
+//@ macro asLocal(V): unbox(V, "sourceaddrs.LocalSource")
+//@ macro asRemote(V): unbox(V, "sourceaddrs.RemoteSource")
+//@ macro asRegistry(V): unbox(V, "sourceaddrs.RegistrySource")
+//@ macro asRegFinal(V): unbox(V, "sourceaddrs.RegistrySourceFinal")
+//@ macro normJoin(A, B): ite(Join(A, B) == ".", "", Join(A, B))
+//@ macro joinFails(A, B): Join(A, B) != "." && (Join(A, B) == "" || isAbs(Join(A, B)) || climbs(Join(A, B)))
+// representation invariants (exactly what the parsers establish)
+//@ macro srcInv(V): (isLocal(V) ==> localOK(asLocal(V).relPath)) && (isRemote(V) ==> normSub(asRemote(V).subPath)) && (isRegistry(V) ==> normSub(asRegistry(V).subPath))
+//@ macro finalInv(V): (isLocal(V) ==> localOK(asLocal(V).relPath)) && (isRemote(V) ==> normSub(asRemote(V).subPath)) && (isRegFinal(V) ==> normSub(asRegFinal(V).src.subPath))
+
+//@ func ParseLocalSource -> (r, err)
+//@   pure
+//@   sweep
+//@   ensures C06.local.inv: err == nil ==> localOK(r.relPath) && r.relPath == given
+//@   ensures C06.local.roundtrip: localOK(given) ==> err == nil && r.relPath == given
+
+//@ func (LocalSource).String -> (r)
+//@   pure
+//@   sweep
+//@   ensures C06.local.print: r == s.relPath
+
+//@ func ResolveRelativeSource -> (r, err)
+//@   sweep
+//@   replay resolveSource: a=asLocal(a).relPath, b=asLocal(b).relPath
+//@   requires pre.nonnil: a != nil && b != nil
+//@   requires pre.inv: srcInv(a) && srcInv(b)
+//@   ensures C11.abs: !isLocal(b) ==> err == nil && r == b
+//@   ensures C11.local: isLocal(b) && isLocal(a) ==> err == nil && isLocal(r) && asLocal(r).relPath == localFix(Join(asLocal(a).relPath, asLocal(b).relPath))
+//@   ensures C11.remote: isLocal(b) && isRemote(a) && err == nil ==> isRemote(r) && asRemote(r).pkg == asRemote(a).pkg && asRemote(r).subPath == normJoin(asRemote(a).subPath, asLocal(b).relPath)
+//@   ensures C11.remote.fails: isLocal(b) && isRemote(a) ==> ((err != nil) == joinFails(asRemote(a).subPath, asLocal(b).relPath))
+//@   ensures C11.registry: isLocal(b) && isRegistry(a) && err == nil ==> isRegistry(r) && asRegistry(r).pkg == asRegistry(a).pkg && asRegistry(r).subPath == normJoin(asRegistry(a).subPath, asLocal(b).relPath)
+//@   ensures C11.registry.fails: isLocal(b) && isRegistry(a) ==> ((err != nil) == joinFails(asRegistry(a).subPath, asLocal(b).relPath))
+//@   ensures C11.noresult: err != nil ==> r == nil
+//@   ensures C06,C11.inv: err == nil ==> r != nil && srcInv(r)
+
+//@ func ResolveRelativeFinalSource -> (r, err)
+//@   sweep
+//@   replay resolveSource: a=asLocal(a).relPath, b=asLocal(b).relPath
+//@   requires pre.nonnil: a != nil && b != nil
+//@   requires pre.inv: finalInv(a) && finalInv(b)
+//@   ensures C11.abs: !isLocal(b) ==> err == nil && r == b
+//@   ensures C11.local: isLocal(b) && isLocal(a) ==> err == nil && isLocal(r) && asLocal(r).relPath == localFix(Join(asLocal(a).relPath, asLocal(b).relPath))
+//@   ensures C11.remote: isLocal(b) && isRemote(a) && err == nil ==> isRemote(r) && asRemote(r).pkg == asRemote(a).pkg && asRemote(r).subPath == normJoin(asRemote(a).subPath, asLocal(b).relPath)
+//@   ensures C11.remote.fails: isLocal(b) && isRemote(a) ==> ((err != nil) == joinFails(asRemote(a).subPath, asLocal(b).relPath))
+//@   ensures C11.registry: isLocal(b) && isRegFinal(a) && err == nil ==> isRegFinal(r) && asRegFinal(r).src.pkg == asRegFinal(a).src.pkg && asRegFinal(r).version == asRegFinal(a).version
+//@       && asRegFinal(r).src.subPath == normJoin(asRegFinal(a).src.subPath, asLocal(b).relPath)
+//@   ensures C11.registry.fails: isLocal(b) && isRegFinal(a) ==> ((err != nil) == joinFails(asRegFinal(a).src.subPath, asLocal(b).relPath))
+//@   ensures C11.noresult: err != nil ==> r == nil
+//@   ensures C06,C11.inv: err == nil ==> r != nil && finalInv(r)
